@@ -46,6 +46,59 @@ pub fn files() -> Vec<F> {
     ]
 }
 
+/// Second workspace: two conftest.py files (nested) reach the same module through different star-import
+/// routes (a diamond over a chain two modules deep); which of them is asked first must not matter.
+pub fn diamond_files() -> Vec<F> {
+    vec![
+        F { rel: "conftest.py", initially_scanned: true, versions: vec![("disk: star-imports b", "from b import *\n")] },
+        F { rel: "one/conftest.py", initially_scanned: true, versions: vec![
+            ("disk: star-imports a, then b", "from a import *\nfrom b import *\n"),
+            ("star-imports b, then a", "from b import *\nfrom a import *\n"),
+        ] },
+        F { rel: "a.py", initially_scanned: true, versions: vec![("disk: star-imports c", "from c import *\n")] },
+        F { rel: "b.py", initially_scanned: true, versions: vec![
+            ("disk: star-imports c", "from c import *\n"),
+            ("star-imports c, defines bx", "import pytest\nfrom c import *\n\n@pytest.fixture\ndef bx():\n    return 1\n"),
+        ] },
+        F { rel: "c.py", initially_scanned: true, versions: vec![("disk: star-imports d", "from d import *\n")] },
+        F { rel: "d.py", initially_scanned: true, versions: vec![
+            ("disk: defines deep", "import pytest\n\n@pytest.fixture\ndef deep():\n    return 1\n"),
+            ("defines deep and deeper", "import pytest\n\n@pytest.fixture\ndef deep():\n    return 1\n\n@pytest.fixture\ndef deeper():\n    return 2\n"),
+        ] },
+        F { rel: "one/test_x.py", initially_scanned: true, versions: vec![("disk: uses deep", "def test_x(deep):\n    pass\n")] },
+        F { rel: "test_top.py", initially_scanned: true, versions: vec![("disk: uses deep", "def test_top(deep):\n    pass\n")] },
+    ]
+}
+
+const NQ_DIAMOND: u8 = 6;
+
+fn run_query_diamond(db: &FixtureDatabase, root: &Path, q: u8) -> String {
+    let p = |r: &str| root.join(r);
+    let root_s = root.to_string_lossy().to_string();
+    let keys = |v: Vec<pytest_language_server::FixtureDefinition>| v.iter().map(|d| def_key(d, &root_s)).collect::<Vec<_>>();
+    match q {
+        0 => format!("available(one/test_x.py) = {:?}", keys(db.get_available_fixtures(&p("one/test_x.py")))),
+        1 => format!("available(test_top.py) = {:?}", keys(db.get_available_fixtures(&p("test_top.py")))),
+        2 => format!("goto(deep@one/test_x.py) = {:?}", db.find_fixture_definition(&p("one/test_x.py"), 0, 11).map(|d| def_key(&d, &root_s))),
+        3 => format!("goto(deep@test_top.py) = {:?}", db.find_fixture_definition(&p("test_top.py"), 0, 13).map(|d| def_key(&d, &root_s))),
+        4 => format!("imported(deep in a.py) = {}, imported(deep in b.py) = {}, imported(deep in c.py) = {}", db.is_fixture_imported_in_file("deep", &p("a.py")), db.is_fixture_imported_in_file("deep", &p("b.py")), db.is_fixture_imported_in_file("deep", &p("c.py"))),
+        _ => {
+            let mut v: Vec<String> = Vec::new();
+            let mut defs: Vec<pytest_language_server::FixtureDefinition> = Vec::new();
+            for e in db.definitions.iter() {
+                defs.extend(e.value().iter().cloned());
+            }
+            defs.sort_by_key(|d| def_key(d, &root_s));
+            for d in defs {
+                let mut r: Vec<String> = db.find_references_for_definition(&d).iter().map(|u| format!("{}:{}:{}", crate::db::rel(&u.file_path, &root_s), u.line, u.start_char)).collect();
+                r.sort();
+                v.push(format!("{} <- {:?}", def_key(&d, &root_s), r));
+            }
+            format!("references = {:?}", v)
+        }
+    }
+}
+
 #[derive(Clone, Copy, Debug, PartialEq, Eq, Hash)]
 pub enum Act {
     /// didOpen/didChange with version v of file f (analyze_file)
@@ -139,6 +192,8 @@ pub struct CacheModel {
     pub rep: &'static Report,
     pub transitions: AtomicU64,
     pub query_comparisons: AtomicU64,
+    pub nq: u8,
+    pub query: fn(&FixtureDatabase, &Path, u8) -> String,
 }
 
 fn cache_fingerprint(db: &FixtureDatabase, root: &str) -> u64 {
@@ -208,11 +263,12 @@ impl CacheModel {
     }
     fn judge(&self, s: &St, last: Act) {
         // every query on a private copy of the warm server vs the cold twin
-        let cold = self.cold(&s.hist);
-        let probe = deep_clone(&s.db);
-        for q in 0..NQ {
-            let a = run_query(&probe, &self.root, q);
-            let b = run_query(&cold, &self.root, q);
+        for q in 0..self.nq {
+            // one query per copy: the oracle's own queries must not warm anything for each other
+            let cold = self.cold(&s.hist);
+            let probe = deep_clone(&s.db);
+            let a = (self.query)(&probe, &self.root, q);
+            let b = (self.query)(&cold, &self.root, q);
             self.query_comparisons.fetch_add(1, Ordering::Relaxed);
             if a != b {
                 let qn = a.split(' ').next().unwrap_or("").to_string();
@@ -266,7 +322,7 @@ impl Model for CacheModel {
                 }
             }
         }
-        for q in 0..NQ {
+        for q in 0..self.nq {
             out.push(Act::Query(q));
         }
     }
@@ -279,7 +335,7 @@ impl Model for CacheModel {
                 Act::Scan(f) => db.verif_analyze_file_fresh(self.path(f), self.files[f as usize].versions[0].1),
                 Act::Close(f) => db.cleanup_file_cache(&self.path(f)),
                 Act::Query(q) => {
-                    let _ = run_query(&db, &self.root, q);
+                    let _ = (self.query)(&db, &self.root, q);
                 }
             }
             db
@@ -351,15 +407,12 @@ fn eviction_conformance(rep: &Report) -> Value {
     json!({"files_cached_before": n, "remaining_after_eviction": remaining, "evicted": evicted.len(), "delta_equals_close": ok})
 }
 
-pub fn run(rep: &'static Report) {
-    let thorough = is_thorough();
-    let depth: u8 = if thorough { 4 } else { 3 };
+fn explore(rep: &'static Report, fs: Vec<F>, depth: u8, nq: u8, query: fn(&FixtureDatabase, &Path, u8) -> String) -> (Value, Arc<CacheModel>) {
     let sc = Scratch::new("c07");
-    let fs = files();
     for f in &fs {
         write_file(sc.path(), f.rel, f.versions[0].1);
     }
-    let model = Arc::new(CacheModel { files: fs, root: sc.path().to_path_buf(), max_depth: depth, rep, transitions: AtomicU64::new(0), query_comparisons: AtomicU64::new(0) });
+    let model = Arc::new(CacheModel { files: fs, root: sc.path().to_path_buf(), max_depth: depth, rep, transitions: AtomicU64::new(0), query_comparisons: AtomicU64::new(0), nq, query });
     struct W(Arc<CacheModel>);
     impl Model for W {
         type State = St;
@@ -379,20 +432,34 @@ pub fn run(rep: &'static Report) {
     }
     let threads = std::thread::available_parallelism().map_or(4, |n| n.get());
     let ck = W(model.clone()).checker().threads(threads).spawn_bfs().join();
+    let v = json!({"states": ck.unique_state_count() as u64, "generated_states": ck.state_count() as u64, "max_depth": ck.max_depth() as u64,
+        "transitions": model.transitions.load(Ordering::Relaxed), "query_comparisons": model.query_comparisons.load(Ordering::Relaxed),
+        "alphabet": {"files": model.files.iter().map(|f| json!({"file": f.rel, "versions": f.versions.iter().map(|v| v.0).collect::<Vec<_>>(), "initially_scanned": f.initially_scanned})).collect::<Vec<_>>(), "queries": nq}});
+    drop(ck);
+    drop(sc);
+    (v, model)
+}
+
+pub fn run(rep: &'static Report) {
+    let thorough = is_thorough();
+    let depth: u8 = if thorough { 4 } else { 3 };
+    let (v1, model) = explore(rep, files(), depth, NQ, run_query);
+    let (v2, _m2) = explore(rep, diamond_files(), depth, NQ_DIAMOND, run_query_diamond);
     let ev = eviction_conformance(rep);
-    rep.set("states", ck.unique_state_count() as u64);
-    rep.set("generated_states", ck.state_count() as u64);
-    rep.set("max_depth", ck.max_depth() as u64);
-    let t = model.transitions.load(Ordering::Relaxed);
+    let sum = |k: &str| v1[k].as_u64().unwrap_or(0) + v2[k].as_u64().unwrap_or(0);
+    rep.set("states", sum("states"));
+    rep.set("generated_states", sum("generated_states"));
+    rep.set("max_depth", v1["max_depth"].clone());
+    let t = sum("transitions");
     rep.set("transitions", t);
-    rep.set("evaluations", model.query_comparisons.load(Ordering::Relaxed));
-    rep.set("distinct_nontrivial", ck.unique_state_count() as u64);
+    rep.set("evaluations", sum("query_comparisons"));
+    rep.set("distinct_nontrivial", sum("states"));
     rep.set("traces_validated_against_impl", t);
     rep.set("eviction_conformance", ev);
-    rep.set("alphabet", json!({"files": model.files.iter().map(|f| json!({"file": f.rel, "versions": f.versions.iter().map(|v| v.0).collect::<Vec<_>>(), "initially_scanned": f.initially_scanned})).collect::<Vec<_>>(), "queries": NQ}));
+    rep.set("models", json!([v1, v2]));
     rep.set("exhaustive", true);
     rep.sample(json!({"history": model.hist_json(&[Act::Query(0), Act::Change(0, 1), Act::Query(0)])}));
-    rep.set("rule", "explicit-state BFS (stateright) over all histories up to the stated depth of: didOpen/didChange with each version of each file (incl. an edit that removes a conftest's last definition, one that only changes its import line, one adding a fixture, a helper edit; helper modules import each other), the scan worker reaching a not-yet-analysed conftest through the no-cleanup path, didClose of an unmodified document (= eviction of that path, bound by the eviction conformance test), and 7 query kinds (available fixtures of 2 files, cycles, imported-fixture lookups across the mutually importing modules, go-to-definition through the import branch, references of every definition, resolution + unused list); state = file versions + closed flags + fingerprint of every cache's contents and freshness + depth, carrying the real warm FixtureDatabase; after EVERY transition all 7 queries are evaluated on a copy of the warm database and on a cold twin that received only the analyses, and must agree");
+    rep.set("rule", "explicit-state BFS (stateright) over all histories up to the stated depth of: didOpen/didChange with each version of each file (incl. an edit that removes a conftest's last definition, one that only changes its import line, one adding a fixture, a helper edit; helper modules import each other), the scan worker reaching a not-yet-analysed conftest through the no-cleanup path, didClose of an unmodified document (= eviction of that path, bound by the eviction conformance test), and 7 query kinds (available fixtures of 2 files, cycles, imported-fixture lookups across the mutually importing modules, go-to-definition through the import branch, references of every definition, resolution + unused list); state = file versions + closed flags + fingerprint of every cache's contents and freshness + depth, carrying the real warm FixtureDatabase; after EVERY transition all 7 queries are evaluated on a copy of the warm database and on a cold twin that received only the analyses, and must agree. A second model does the same over a workspace in which two nested conftest.py files reach one module through different star-import routes (diamond over a chain two modules deep; 6 query kinds asked from below either conftest)");
     rep.assume("closing is only offered for documents whose buffer equals the on-disk content (the statement's 'unmodified document'); eviction of a set of paths has the effect of closing each of them (checked once per run by really crossing MAX_FILE_CACHE_SIZE)");
 }
 
